@@ -184,6 +184,8 @@ def run_quiet(prop, scenario):
                     res.faults['tuning_constants_shrunk'] += 1
                 if env.get('dense_units') is not None and _M.UNIT_REWRITES[0]:
                     res.faults['dense_spec_rewritten_for_another_unit'] += 1
+                if env.get('cohost') is not None and _M.COHOSTED[0]:
+                    res.faults['cohosted_twin_object'] += 1
                 if env.get('failed_eval') is not None and _M.FAILED_USES[0]:
                     res.faults['object_failed_on_a_damaged_log_before'] += 1
             return res
@@ -222,6 +224,8 @@ def one_run(prop, seed, k, tier):
             env['failed_eval'] = rng.randrange(1 << 30)
         if rng.random() < 0.12 and 'dense_units' not in getattr(prop, 'ENV_OPT_OUT', ()):
             env['dense_units'] = rng.randrange(1 << 30)
+        if rng.random() < 0.08 and 'cohost' not in getattr(prop, 'ENV_OPT_OUT', ()):
+            env['cohost'] = rng.randrange(1 << 30)
         if env:
             scenario['_env'] = env
     res = run_quiet(prop, scenario)
